@@ -134,6 +134,9 @@ type backCase struct {
 	Pos   int    `json:"pos"` // position of w_i among words of index Other
 	Other int    `json:"other"`
 	Full  bool   `json:"full"` // scan all 2048 last words; otherwise the solutions and their neighbours
+	// Typos: every candidate is checked directly after a rejected attempt with a mistyped word
+	// (the word at Pos, or the last word, replaced by a token outside the list)
+	Typos bool `json:"typos,omitempty"`
 }
 
 var c08BackCheck = register("C08", "c08.back", func(c *backCase) error {
@@ -151,6 +154,12 @@ var c08BackCheck = register("C08", "c08.back", func(c *backCase) error {
 	}
 	try := func(x int) error {
 		m := strings.Join(append(append([]string(nil), words...), golden[x]), " ")
+		if c.Typos {
+			typo := append(append([]string(nil), words...), golden[x])
+			at := []int{c.Pos, c.N - 1, 1}[x%3]
+			typo[at] = []string{"zzzz", typo[at] + "q", "\u00e9\u00e9"}[x/3%3]
+			implCheck(strings.Join(typo, " "), implLang[l])
+		}
 		err, p := implCheck(m, implLang[l])
 		sig := fmt.Sprintf("C08 back lang=%s index=%d", l, c.Index)
 		if p != nil {
@@ -182,7 +191,7 @@ var c08BackCheck = register("C08", "c08.back", func(c *backCase) error {
 	return nil
 })
 
-const c08Rule = "C08: complete enumeration of 10 languages x 2048 indices. The word the API emits for index i (observed through crafted 12-word and 24-word sentences) must equal the golden list byte for byte, be non-empty, whitespace-free, NFKD-stable and pairwise distinct; and for every (language, index) the sentence containing that word is scanned over candidate last words (quick: the reference's solutions and their neighbours; thorough: all 2048) and the accepted set must be exactly the reference's solution set for that index. The source text of internal/wordlist/*.go is parsed and compared with the golden lists as well. Non-trivial: every (language, index) pair; distinct by (kind, language, index)"
+const c08Rule = "C08: complete enumeration of 10 languages x 2048 indices. The word the API emits for index i (observed through crafted 12-word and 24-word sentences) must equal the golden list byte for byte, be non-empty, whitespace-free, NFKD-stable and pairwise distinct; and for every (language, index) the sentence containing that word is scanned over candidate last words (quick: the reference's solutions and their neighbours; thorough: all 2048) and the accepted set must be exactly the reference's solution set for that index; for every second index each candidate is checked directly after a rejected attempt with a mistyped word. The source text of internal/wordlist/*.go is parsed and compared with the golden lists as well. Non-trivial: every (language, index) pair; distinct by (kind, language, index)"
 
 func TestC08_List(t *testing.T) {
 	cov.Rule(c08Rule)
@@ -215,7 +224,10 @@ func TestC08_Back(t *testing.T) {
 				continue
 			}
 			n := ref.Counts[i%5]
-			c := &backCase{Lang: l.Name(), Index: i, N: n, Pos: (i / 5) % (n - 1), Other: (i*7 + 3) % 2048, Full: thorough()}
+			c := &backCase{Lang: l.Name(), Index: i, N: n, Pos: (i / 5) % (n - 1), Other: (i*7 + 3) % 2048, Full: thorough(), Typos: i%2 == 1}
+			if c.Typos {
+				cov.Class("after-rejected-typo")
+			}
 			if c.Other == i {
 				c.Other = (i + 1) % 2048
 			}
@@ -317,6 +329,51 @@ func TestC08_Shared(t *testing.T) {
 		if k++; k%97 == 1 {
 			cov.Sample("c08.shared", c)
 		}
-		judge(rt, "c08.shared", c08SharedCheck, c)
+		judgeH(rt, "c08.shared", c08SharedCheck, c, pr[0])
 	})
+}
+
+// c08.cold-concurrent: the word -> index direction when the first use of a language comes from
+// several goroutines of a freshly started process at once (the lookup tables are built lazily).
+var c08ColdConcCheck = register("C08", "c08.cold-concurrent", coldConcCheck("C08"))
+
+func TestC08_ColdConcurrent(t *testing.T) {
+	cov.Rule(c08Rule + " || and in freshly started processes whose 8 goroutines validate sentences of one or two languages at once as their very first calls (valid sentences covering different indices, and their last-word neighbours)")
+	item := 0
+	for round := 0; round < pick(2, 12); round++ {
+		for _, l := range allLangs() {
+			item++
+			if !mine(item) {
+				continue
+			}
+			l2 := l
+			if round%2 == 1 {
+				l2 = siblingOf(l)
+			}
+			gs := make([][]op, 8)
+			for g := range gs {
+				gl := l
+				if g%2 == 1 {
+					gl = l2
+				}
+				for i := 0; i < 6; i++ {
+					n := ref.Counts[(g+i)%5]
+					prefix := make([]int, n-1)
+					for j := range prefix {
+						prefix[j] = (round*997 + g*251 + i*41 + j*89 + int(l)*13) % 2048
+					}
+					sol := ref.SolveLast(prefix)
+					good := append(append([]int(nil), prefix...), sol[(g+i)%len(sol)])
+					bad := append(append([]int(nil), prefix...), (sol[0]+1)%2048)
+					gs[g] = append(gs[g], op{Kind: "check", Lang: int64(implLang[gl]), Text: text(strings.Join(ref.Words(gl, good), " "))})
+					gs[g] = append(gs[g], op{Kind: "valid", Lang: int64(implLang[gl]), Text: text(strings.Join(ref.Words(gl, bad), " "))})
+				}
+			}
+			c := &concCallCase{Plan: plan{GOMAXPROCS: []int{0, 4, 2, 16}[round%4], Phases: []phase{{Goroutines: gs}}}}
+			cov.Eval(8 * 12)
+			cov.Class("cold-concurrent-first-use")
+			cov.NonTrivial("c08.cold-concurrent", []byte(l.Name()), []byte{byte(round)})
+			judge(t, "c08.cold-concurrent", c08ColdConcCheck, c)
+		}
+	}
 }
